@@ -398,8 +398,71 @@ def r4_nothing_assumes_success_before_the_gate(ctx):
     ctx.floor('C09.R4', 'sink-less pavexc calls in App::build', n, 4)
 
 
+BYTE_OFFSET_SOURCES = {'find', 'rfind', 'len', 'offset', 'char_indices', 'match_indices', 'rmatch_indices', 'byte_offset', 'start', 'end',
+                       'floor_char_boundary', 'ceil_char_boundary', 'len_utf8', 'split_at', 'byte_index', 'span'}
+CHAR_COUNT_SOURCES = {'chars', 'enumerate', 'count', 'position', 'rposition'}
+
+
+def r5_str_slicing(ctx):
+    ctx.rule('C09.R5', 'P7 provenance audit: every byte-range slicing of a str/String (`s[a..b]`, which panics off a char boundary) in the compiler '
+             'crates takes its bounds from byte-offset sources (find/len/offset/char_indices/..). A bound that derives from a character '
+             'counter (chars().enumerate(), count(), position()) — directly or through the struct field it was stored in — makes the '
+             'compiler panic on non-ASCII input instead of reporting a diagnostic.')
+    crates = ['pavexc', 'pavexc_attr_parser', 'rustdoc_ir', 'rustdoc_processor', 'rustdoc_resolver', 'pavexc_annotations']
+    n = 0
+    for cr in crates:
+        try:
+            bodies = [b for b in ctx.fb.bodies(cr) if not b.is_promoted]
+        except Exception:
+            continue
+        # constructions of local structs, to follow an index that was stored in a field
+        ctors = {}
+        for b in bodies:
+            for bb, j, st in b.all_assigns():
+                rv = st['rv']
+                if rv['k'] == 'agg' and rv.get('ak') == 'adt':
+                    ctors.setdefault(strip_generics(rv['adt']), []).append((b, rv))
+        for b in bodies:
+            for bb, t in b.calls():
+                c = callee(t) or ''
+                if c not in ('core::ops::index::Index::index', 'core::ops::index::IndexMut::index_mut') or not t['aty']:
+                    continue
+                if t['aty'][0].replace('&mut ', '&') not in ('&str', '&alloc::string::String') or 'Range' not in t['aty'][1]:
+                    continue
+                n += 1
+                defs = Defs(b)
+                pl = op_place(t['args'][1])
+                srcs = set()
+                if pl is not None:
+                    sl, _ = backward_slice(b, pl['l'], defs)
+                    srcs |= {x.split('::')[-1] for x, _, _ in slice_calls(sl)}
+                    # bounds read from struct fields: look at how those fields are filled
+                    for _, _, node in sl:
+                        if 'rv' not in node:
+                            continue
+                        ops, pls = rv_operands(node['rv'])
+                        for q in pls + [op_place(o) for o in ops if op_place(o) is not None]:
+                            for el, owner in zip([e for e in q.get('p', []) if e.startswith('f:')], q.get('fo', [])):
+                                if not strip_generics(owner).startswith(cr + '::'):
+                                    continue   # only the crate's own structs: core::ops::Range{start,end} is built everywhere
+                                for cb, crv in ctors.get(strip_generics(owner), []):
+                                    if el[2:] in crv.get('fields', []):
+                                        fpl = op_place(crv['ops'][crv['fields'].index(el[2:])])
+                                        if fpl is not None:
+                                            fsl, _ = backward_slice(cb, fpl['l'], Defs(cb))
+                                            srcs |= {x.split('::')[-1] for x, _, _ in slice_calls(fsl)}
+                chars = sorted(srcs & CHAR_COUNT_SOURCES)
+                bytes_ = sorted(srcs & BYTE_OFFSET_SOURCES)
+                bad = bool(chars) and 'char_indices' not in srcs
+                ctx.ob('C09.R5', 'slice-bounds|%s' % b.nid.replace(PX, '').replace('pavexc::', ''), not bad, b.loc(bb, t),
+                       'bounds of the %s slicing derive from %s%s' % (t['aty'][1].split('::')[-1], bytes_ or sorted(srcs)[:6] or 'parameters',
+                                                                    '' if not bad else ' and from the CHARACTER counters %s: not a byte offset' % chars))
+    ctx.floor('C09.R5', 'byte-range slicings of strings in the compiler crates', n, 4)
+
+
 def check(ctx):
     r4_nothing_assumes_success_before_the_gate(ctx)
     r1_no_silent_failure(ctx)
     r2_writes_after_success(ctx)
     r3_progress_flag(ctx)
+    r5_str_slicing(ctx)
